@@ -310,11 +310,12 @@ func C08MatlabPackage(level int) {
 			}
 			target := d + "/" + comps[k] + ".m"
 			if strings.HasPrefix(rel, "+yardl/") {
-				// the shipped runtime package is not generated code: its own dangling names are recorded, not asserted
-				// (yardl.ValuError in +yardl/Time.m, reported as a suspected defect of the unchanged tree)
+				// the shipped runtime package is copied into every generated package: a name it refers to must resolve to a
+				// shipped file as well (yardl.ValuError in +yardl/Time.m was the genuine defect found this way)
 				if !has[target] {
 					verifOut("unresolved-reference-in-shipped-file", rel+": "+r.chain)
 				}
+				verifAssert("qualified-reference-of-a-shipped-file-resolves", has[target])
 				continue
 			}
 			nrefs++
